@@ -16,6 +16,7 @@ import Sigverif.Model.Cache
 import Sigverif.Model.Visitor
 import Sigverif.Model.Grammar
 import Sigverif.Model.GrammarDef
+import Sigverif.Model.Examine
 import Sigverif.Model.Discovery
 import Sigverif.Model.WrappersAttr
 import Sigverif.Model.ReadSigText
@@ -748,6 +749,23 @@ def handle (line : String) : String :=
     | "stext" :: rest => sTextOp rest           -- the parameters of support.s(text, …)
     | "pieces" :: rest => piecesOp rest         -- the native text of a signature, piece by piece
     | "cacheid" :: rest => SV.cacheIdOp rest   -- which instance a looked-up wrapper is bound to (Model/CacheId.lean)
+    | "examine" :: n :: f :: ss :: hh :: [] => do
+      -- guard events of the retrieval of f in a functional call graph (Model/Examine.lean)
+      let n' ← n.toNat?
+      let f' ← f.toNat?
+      let succs ← parseNats ss "."
+      let hs ← parseNats hh "."
+      let g : SV.FGraph := { succ := fun i => match succs[i]? with
+                                        | some c => if c < n' then some c else none
+                                        | none => none,
+                             hinted := fun i => hs[i]? == some 1 }
+      let nm : Option Nat → String := fun o => match o with | some x => toString x | none => "t"
+      some (match SV.examineTrace g n' f' with
+        | some t => "ok " ++ ",".intercalate (t.map (fun e => match e with
+            | .enter o d => s!"E{nm o}@{d}"
+            | .uf o => s!"U{nm o}"
+            | .ok x => s!"K{x}"))
+        | none => "err assertion")
     | "chain" :: rest => SV.chainOp rest       -- the fallback chain of forged_signature (Model/Chain.lean)
     | "makeup" :: ex :: p :: [] => do
       let cs := makeUpCallsigs (← parseParams p) (← parseNats ex ".")
